@@ -324,6 +324,7 @@ pub fn gen_random(seed: u64, idx: u64) -> Plan {
             nonce += 1;
         }
         c.steps.push(Step::AwaitResponses { count: nreq, max_ms: 60_000 });
+        fit_c2s(&mut c);
         conns.push(c);
     }
     Plan {
